@@ -24,11 +24,12 @@ SPEC = dict(
                  'ban/require commands reach no factory in the bench (sessions are attached with AddNewSession), so only the privilege check and the refusal are exercised',
                  'RSS is the whole process (server + the harness clients, whose receive queues are emptied after every injected Message)',
                  'g++ 12 ASan/UBSan report what they claim to report'],
+    wall_quick=3000,
     legs=[
-        Leg('regress', 'h_hostile', 'asan', opts={'mode': 'regress'}, quick=1, thorough=1, workers=1, cpu_budget=20, min_cases=1),
-        Leg('hostile', 'h_hostile', 'asan', opts={'mode': 'hostile', 'nmsg': 50}, quick=1280, thorough=64000, workers=16, cpu_budget=20),
-        Leg('deepnest', 'h_hostile', 'asan', opts={'mode': 'deepnest'}, quick=2, thorough=2, workers=2, cpu_budget=20, min_cases=0),
-        Leg('regexbomb', 'h_hostile', 'asan', opts={'mode': 'regexbomb'}, quick=5, thorough=5, workers=5, cpu_budget=20, min_cases=0),
+        Leg('regress', 'h_hostile', 'asan', opts={'mode': 'regress'}, quick=1, thorough=1, workers=1, cpu_budget=20, stall_wall=900, min_cases=1),
+        Leg('hostile', 'h_hostile', 'asan', opts={'mode': 'hostile', 'nmsg': 50}, quick=1280, thorough=64000, workers=16, cpu_budget=20, stall_wall=900),
+        Leg('deepnest', 'h_hostile', 'asan', opts={'mode': 'deepnest'}, quick=2, thorough=2, workers=2, cpu_budget=20, stall_wall=900, min_cases=0),
+        Leg('regexbomb', 'h_hostile', 'asan', opts={'mode': 'regexbomb'}, quick=5, thorough=5, workers=5, cpu_budget=20, stall_wall=900, min_cases=0),
     ],
     min_stats={'regress': {'regress_f9_results_jettisoned': 4, 'regress_f31_answered': 2, 'regress_guards_survived': 1, 'pings_answered': 40},
                'hostile': {'max_slow_client_queue_depth': 2, 'cases_with_queue_depth_ge_2': 900, 'pings_answered': 55000,
